@@ -252,7 +252,7 @@ WaitBlocked(a) == \/ ac[a].pc = "c.wait" /\ ~g.cctx[a[2]] /\ ~g.rctx /\ g.closed
 
 \* the client of the synchronous subscription goes away (environment; not while an update of that subscriber is in flight)
 XCancel(s) == LET a == X(s) IN
-  /\ ac[a].pc = "x.idle" /\ o.nterm < MaxTerm /\ ~o.final /\ ac[C(s)].pc = "c.wait"
+  /\ ac[a].pc = "x.idle" /\ o.nterm < MaxTerm /\ ~o.final /\ ac[C(s)].pc \in {"c.idle0", "c.wait"}   \* also before the call: a request that is already dead
   /\ \A e \in Events : ac[U(s, e)].pc \in {"none", "u.end"}
   /\ Do(a, [ac[a] EXCEPT !.pc = "x.end"], [g EXCEPT !.cctx[s] = TRUE], [o EXCEPT !.nterm = @ + 1], "h.cmd", 12, s, 0)
 
